@@ -84,7 +84,12 @@ def run(ctx):
             for (x, y), rel in lf.rel.items():
                 if "max_frame_len" in x + y and len_expr_match(x + y):
                     first = x if "max_frame_len" not in x else y
+                    limit = y if first is x else x
                     r_ = rel if "max_frame_len" in y else {"<": ">", ">": "<", "=": "=", "!=": "!="}[rel]
+                    # the limit applies to the frame length itself on both sides: `4 + len > max` (or `len > max - 4`)
+                    # shifts one side's limit against the other's
+                    if any(op in first or op in limit for op in ("Add(", "Sub(", "Mul(")):
+                        r_ = "arith:" + r_
                     outcome = lf.ret.variant if isinstance(lf.ret, Agg) else lf.kind
                     inner = lf.ret.elems[0].variant if isinstance(lf.ret, Agg) and isinstance(lf.ret.elems[0], Agg) else None
                     rows.setdefault(r_, set()).add((outcome, inner))
